@@ -18,8 +18,12 @@ Cell(s, c, kbase) ==
       pva |-> IF pe = "ok" THEN VargsOf(s, PosVals(c, 300)) ELSE <<>>]
 \* value mode "distinct" (keyword n carries 400+n) and "equal" (300+n, what the positional route would carry)
 Row(s) == [k \in 1..Len(CallSeq) |-> [dist |-> Cell(s, CallSeq[k], 400), eqv |-> Cell(s, CallSeq[k], 300)]]
+\* every admissible (parameter, spec mode) of a signature with the documented outcome of symbolizing with it
+Annot(s) == SetToSeq({<<x[1], x[2], AnnotateOutcome(s, x[1], x[2])>> :
+                        x \in {y \in Named(s) \X SpecModes : SpecModeOK(s, y[1], y[2])}})
 ASSUME JsonSerialize(IOEnv.OUT_FILE,
          [sigs |-> SigSeq,
           calls |-> [k \in 1..Len(CallSeq) |-> [nargs |-> CallSeq[k].nargs, kw |-> SetToSeq(CallSeq[k].kw)]],
-          res |-> [k \in 1..Len(SigSeq) |-> Row(SigSeq[k])]])
+          res |-> [k \in 1..Len(SigSeq) |-> Row(SigSeq[k])],
+          annot |-> [k \in 1..Len(SigSeq) |-> Annot(SigSeq[k])]])
 =============================================================================
